@@ -273,6 +273,12 @@ def h2_scenario(seed, runtime, n_steps=18):
             finally:
                 scopes.pop(name, None)
 
+        async def safe_close(resp, name="?"):
+            try:
+                await resp.aclose()
+            except Exception as e:  # noqa  closing a response must not raise: record it, keep the schedule going
+                out["oracle"].append({"clause": "close-raised", "what": type(e).__name__, "response": name})
+
         def check(tag):
             pend = conn.pending()
             streams = len(conn._events)
@@ -308,7 +314,7 @@ def h2_scenario(seed, runtime, n_steps=18):
                     name = rng.choice(sorted(held))
                     resp = held.pop(name)
                     desc = f"close {name}"
-                    tg.start_soon(resp.aclose)
+                    tg.start_soon(safe_close, resp, name)
                 elif a == "cancel" and scopes:
                     name = rng.choice(sorted(scopes))
                     desc = f"cancel {name}"
@@ -319,7 +325,7 @@ def h2_scenario(seed, runtime, n_steps=18):
                     srv.goaway(last)
                 elif a == "ext_close" and rng.random() < 0.3:
                     desc = "ext_close"
-                    tg.start_soon(conn.aclose)
+                    tg.start_soon(safe_close, conn, "connection")
                 elif a == "eof" and rng.random() < 0.3:
                     srv.eof = True
                     srv.wake()
@@ -336,7 +342,7 @@ def h2_scenario(seed, runtime, n_steps=18):
                     srv.waiting.remove(sid)
                     srv.answer(sid)
                 for name in sorted(held):
-                    tg.start_soon(held.pop(name).aclose)
+                    tg.start_soon(safe_close, held.pop(name), name)
                 await _settle()
                 check("drain")
             for sc in list(scopes.values()):
